@@ -178,9 +178,7 @@ func runCheck(prop, repo, verifDir, tier, only string, workers int, verbose, noE
 		}
 	}
 	genSecs := time.Since(t0).Seconds() - loadSecs
-	fmt.Fprintf(os.Stderr, "[timing] load %.1fs gen %.1fs obligations %d\n", loadSecs, genSecs, len(allObs))
 	results := SolveAll(allObs, workers)
-	fmt.Fprintf(os.Stderr, "[timing] solved at %.1fs\n", time.Since(t0).Seconds())
 	rep := buildReport(prop, tier, runs, results, cs, time.Since(t0).Seconds(), loadSecs, genSecs, verifDir, verbose)
 	if !noEvidence && prop != "" && prop != "all" && only == "" {
 		if err := rep.writeEvidence(verifDir); err != nil {
